@@ -1,5 +1,5 @@
 From Coq Require Import List NArith Arith.
-From SK Require Import lib.LGraph lib.Mono model.C11_Model proof.C11_Aut proof.C11_WL proof.C11_Dedup proof.C11_Main proof.C11_Comp.
+From SK Require Import lib.LGraph lib.Mono model.C11_Model proof.C11_Aut proof.C11_WL proof.C11_Dedup proof.C11_Main proof.C11_Comp proof.C11_VF2.
 Import ListNotations.
 
 (** Vocabulary (definitions in proof/C11_Aut.v, written out here for the reader):
@@ -50,6 +50,19 @@ Theorem C11_vf2_contract :
     length E = length (auts fn fe g).
 Proof. exact vf2_contract_suffices. Qed.
 Print Assumptions C11_vf2_contract.
+
+(** The same with the maps as networkx delivers them — dictionaries, item order unspecified.  [same_items m m'] :=
+    forall ph, In ph m <-> In ph m';  [nodupR same_items E] := no two members of E have the same items.  Contract:
+    E contains only automorphisms, every automorphism, none twice (all up to item order). *)
+Theorem C11_vf2_contract_items :
+  forall (fn : nlab -> N) (fe : elab -> N) (g : graph) (E : list mapping), simple_graph g ->
+    (forall m, In m E -> exists s, is_automorphism fn fe g s /\ same_items m (aut_pairs g s)) ->
+    (forall s, is_automorphism fn fe g s -> exists m, In m E /\ same_items m (aut_pairs g s)) ->
+    nodupR same_items E ->
+    analyze_component_with (node_ids g) E = analyze_component fn fe g /\
+    length E = length (auts fn fe g).
+Proof. exact vf2_contract_items. Qed.
+Print Assumptions C11_vf2_contract_items.
 
 (** Clause 2 (orbits).  [exact_orbits fn fe g O] (proof/C11_Aut.v) says: every node lies in some member of O; members
     contain only nodes; two members sharing a node are equal; O has no repeated member; and for u in a member o,
